@@ -555,6 +555,31 @@ PVAL = {"pfi": "1", "mei": "100000", "alias": "3", "rt": hx("resp/t"), "cd": "01
 X_T, X_P = "x/a", "PAYLOAD-é"
 
 
+BOUNDS = [127, 128, 129, 16383, 16384]
+SID_BOUNDS = [1, 127, 128, 129, 16383, 16384, 2097151, 2097152]
+
+
+def pattern(n):
+    return bytes((i * 7 + 1) % 256 for i in range(n))
+
+
+def sid_of(m):
+    """subscription identifier of the v5 subscriber (0 = none); old replays carry True/False"""
+    v = m.get("subid", 0)
+    return 9 if v is True else int(v)
+
+
+def topic_of(m):
+    n = int(m.get("tlen", 0) or 0)
+    return X_T if n < 3 else "x/" + "t" * (n - 2)
+
+
+def pval(m, k):
+    if k == "cd" and int(m.get("cdlen", 0) or 0) > 0:
+        return pattern(int(m["cdlen"])).hex()
+    return PVAL[k]
+
+
 def cross_scenario(i, m):
     s = Scn("cross", "x-%d" % i, prop="C20", **m)
     q = m["q"]
@@ -564,15 +589,15 @@ def cross_scenario(i, m):
     s.add("RECV h 1 %d" % T)
     for (n, l) in (("s4", "L4"), ("s5", "L5")):
         s.add("OPEN %s %s" % (n, l))
-        sid = ";sid=9" if (n == "s5" and m["subid"]) else ""
+        sid = ";sid=%d" % sid_of(m) if (n == "s5" and sid_of(m)) else ""
         s.add("SEND %s connect;id=%s;ka=60;clean=1 subscribe;pkid=1;f=%s;q=%d%s" % (n, hx(n), hx("x/#"), q, sid))
         s.add("RECV %s 2 %d" % (n, T), "sub-" + n)
     s.add("OPEN p " + ("L4" if m["pv"] == "v4" else "L5"))
     s.add("SEND p connect;id=%s;ka=60;clean=1" % hx("pub"))
     s.add("RECV p 1 %d" % T, "pconn")
-    item = "publish;t=%s;p=%s;q=%d;pkid=%d" % (hx(X_T), hx(payload_of(m)), q, 5 if q else 0)
+    item = "publish;t=%s;p=%s;q=%d;pkid=%d" % (hx(topic_of(m)), hx(payload_of(m)), q, 5 if q else 0)
     for k in m["props"]:
-        item += ";%s=%s" % (k, PVAL[k])
+        item += ";%s=%s" % (k, pval(m, k))
     s.add("SEND p " + item)
     if "sid" in m["props"]:
         if q == 2:
@@ -623,20 +648,51 @@ def gen_cross(ctx, rng):
         for subid in (False, True):
             for psize in (0, 9, 3000):
                 ms.append(dict(pv="v4", q=q, props=(), subid=subid, psize=psize))
+    ms += gen_cross_boundaries(ctx, rng)
     return [cross_scenario(i, m) for i, m in enumerate(ms)]
+
+
+def gen_cross_boundaries(ctx, rng):
+    """values at which a variable byte integer on the wire grows by one byte: subscription
+    identifiers, the length of the property block and the remaining length of the PUBLISH that
+    each subscriber receives (128, 16384, 2097152 and their neighbours)"""
+    ms = []
+    qs = (lambda: (0, 1, 2)) if ctx.thorough() else (lambda: (rng.below(3),))
+    # subscription identifier of the v5 subscriber
+    for sid in SID_BOUNDS:
+        for (pv, props) in (("v4", ()), ("v5", ()), ("v5", ("up", "ct"))):
+            for q in qs():
+                ms.append(dict(pv=pv, q=q, props=props, subid=sid, psize=9, boundary="sid"))
+    # property block received by the v5 subscriber exactly L bytes: correlation data (3 + n)
+    # alone, with the subscription identifier (1 + its varint), with two more properties (2 + 5)
+    for L in BOUNDS:
+        for (props, sid, base) in ((("cd",), 0, 3), (("cd",), 1, 5), (("cd",), 128, 6), (("pfi", "mei", "cd", "alias"), 0, 10)):
+            for q in qs():
+                ms.append(dict(pv="v5", q=q, props=props, subid=sid, psize=9, cdlen=L - base, boundary="proplen"))
+    # remaining length of the forwarded PUBLISH exactly R, at the v4 and at the v5 subscriber:
+    # 2 + topic + (2 if qos) + (v5: property length byte) + payload; by payload and by topic size
+    for R in BOUNDS:
+        for recv in ("s4", "s5"):
+            for pv in ("v4", "v5"):
+                for q in qs():
+                    fixed = 2 + (2 if q else 0) + (1 if recv == "s5" else 0)
+                    ms.append(dict(pv=pv, q=q, props=(), subid=0, psize=R - fixed - 3, boundary="remlen"))
+                    if R < 1000:
+                        ms.append(dict(pv=pv, q=q, props=(), subid=0, psize=10, tlen=R - fixed - 10, boundary="remlen-topic"))
+    return ms
 
 
 def payload_of(m):
     n = m.get("psize", 9)
     if n == 9:
         return X_P.encode("utf-8")
-    return bytes((i * 7 + 1) % 256 for i in range(n))
+    return pattern(n)
 
 
 def cross_expect_props(m):
-    e = {k: PVAL[k] for k in m["props"] if k not in ("alias", "sid")}
-    if m["subid"]:
-        e["sid"] = "9"
+    e = {k: pval(m, k) for k in m["props"] if k not in ("alias", "sid")}
+    if sid_of(m):
+        e["sid"] = str(sid_of(m))
     return e
 
 
@@ -669,7 +725,7 @@ def check_cross_one(s):
             bad.append("%s received %s instead of exactly one PUBLISH" % (n, kinds))
             continue
         d = msgs[0]
-        if unhx(d.get("t", "-")) != X_T.encode() or unhx(d.get("p", "-")) != payload_of(m):
+        if unhx(d.get("t", "-")) != topic_of(m).encode() or unhx(d.get("p", "-")) != payload_of(m):
             bad.append("%s: topic/payload changed: %s" % (n, d))
         got = {k: v for k, v in d.items() if k in P8}
         if n == "s4":
@@ -739,6 +795,44 @@ def check_dispatch(iexe, mexe):
     return bad_prop, bad_corr, n
 
 
+def boundary_writes():
+    """(op, expected fields of the decoded packet) at the varint boundaries"""
+    ops = []
+    for v in ("v4", "v5"):
+        for sid in SID_BOUNDS:
+            ops.append(("WRITE %s publish 1 0 sid=%d" % (v, sid), {"sid": str(sid)} if v == "v5" else {}))
+        for L in BOUNDS:
+            ops.append(("WRITE %s publish 1 0 cd=%d" % (v, L - 3), {"cd": pattern(L - 3).hex()} if v == "v5" else {}))
+            ops.append(("WRITE %s publish 1 0 cd=%d sid=128" % (v, L - 6), {"cd": pattern(L - 6).hex(), "sid": "128"} if v == "v5" else {}))
+            for pr in (0, 1):
+                # remaining length R of the frame itself: 2 + 3 (topic) + 2 (pkid) + payload, v5 adds the property block
+                extra = 0 if v == "v4" else (1 if pr == 0 else 1 + 12)
+                ps = L - 7 - extra
+                ops.append(("WRITE %s publish %d 0 ps=%d" % (v, pr, ps), {"p": pattern(ps).hex() if ps else "-"}))
+            ops.append(("WRITE %s publish 0 0 ps=10 tl=%d" % (v, L - 14 - (1 if v == "v5" else 0)), {}) if L < 1000 else ("WRITE %s publish 0 0" % v, {}))
+            for k in ("connack", "puback", "pubrec", "pubrel", "pubcomp", "suback", "unsuback", "disconnect"):
+                for x in (0, 1):
+                    ops.append(("WRITE %s %s 1 %d rs=%d" % (v, k, x, L - 3), {}))
+    return ops
+
+
+def check_boundary_writes(iexe):
+    bw = boundary_writes()
+    rc, impl, err = lib.run_on_text(iexe, "\n".join(o for o, _ in bw) + "\n")
+    if len(impl) != len(bw):
+        return ["driver answered %d of %d boundary WRITE ops" % (len(impl), len(bw))], 0
+    bad = []
+    for (o, exp), a in zip(bw, impl):
+        k = o.split()[2]
+        good = a.startswith("WRITE Ok") and a.endswith(" rest=0") and a.split(" dec=")[1].startswith(k)
+        if good and exp:
+            d = parse_recv("RECV " + a.split(" dec=")[1].split(" rest=")[0])[0][1]
+            good = all(d.get(f) == val for f, val in exp.items())
+        if not good:
+            bad.append("%s => %s" % (o, a[:160] + (" ... " + a[-40:] if len(a) > 200 else "")))
+    return bad, len(bw)
+
+
 NOTIFS = ["fwd0", "fwd1", "unsched", "disc", "shadow"] + ["ack:" + k for k in ("connack", "puback", "suback", "pubrec", "pubrel", "pubcomp", "unsuback", "pingresp")]
 
 
@@ -759,6 +853,9 @@ def run(ctx):
     rng = lib.Rng(ctx.seed ^ 0xC20)
     # 1. dispatch tables and notification conversion
     d_prop, d_corr, d_n = check_dispatch(iexe, mexe)
+    b_bad, b_n = check_boundary_writes(iexe)
+    d_prop += b_bad
+    d_n += b_n
     nm = model_answers(mexe, ["NOTIF " + x for x in NOTIFS])
     n_corr = []
     for x, a in zip(NOTIFS, nm):
@@ -778,10 +875,10 @@ def run(ctx):
             continue
         bad, h = check_cross_one(s)
         m = s.meta
-        key = "%s q%s %dprops%s" % (m["pv"], m["q"], len(m["props"]), " sid" if "sid" in m["props"] else "")
+        key = "%s q%s %dprops%s%s" % (m["pv"], m["q"], len(m["props"]), " sid" if "sid" in m["props"] else "", " " + m["boundary"] if m.get("boundary") else "")
         hist[key] = hist.get(key, 0) + 1
         if m["pv"] == "v5" and m["props"]:
-            nontriv.add((m["q"], tuple(m["props"]), m["subid"]))
+            nontriv.add((m["q"], tuple(m["props"]), sid_of(m), m.get("cdlen", 0), m.get("psize", 9), m.get("tlen", 0)))
         if bad:
             fails.append((s, bad))
         elif h:
@@ -792,8 +889,10 @@ def run(ctx):
     ctx.cov["distinct_nontrivial"] = len(nontriv)
     ctx.cov["rule"] = ("each scenario: v4 and v5 subscriber on x/#, one publisher (v4, or v5 with a subset of the 8 PUBLISH properties), QoS 0-2 with the full ack "
                        "exchange on both sides, PINGREQ/UNSUBSCRIBE at the end; %s. non-trivial = v5 publisher with a non-empty property subset; distinct (qos, subset, subscription-id) counted. "
-                       "Plus the real Protocol::write of V4 and V5 on every (packet kind, properties?, reason variant) against Stack.Model.has_arm, decoded back with rumqttc." % (
-                           "all 256 subsets x 3 QoS x subscription-id on/off" if ctx.thorough() else "all 256 subsets, one seeded QoS each (3 QoS for empty, full, full-minus-sid and each singleton)"))
+                       "Boundary scenarios: v5 subscription identifiers %s; property block of the forwarded PUBLISH and its remaining length (by payload and by topic size) exactly %s bytes at the v4 / v5 subscriber. "
+                       "Plus the real Protocol::write of V4 and V5 on every (packet kind, properties?, reason variant) against Stack.Model.has_arm, and on the same boundaries (subscription identifier, property block of PUBLISH and of every ack/CONNACK/DISCONNECT via a reason string, remaining length), decoded back with rumqttc." % (
+                           "all 256 subsets x 3 QoS x subscription-id on/off" if ctx.thorough() else "all 256 subsets, one seeded QoS each (3 QoS for empty, full, full-minus-sid and each singleton)",
+                           SID_BOUNDS, BOUNDS))
     ctx.cov["exhaustive"] = True
     ctx.cov["exhaustive_part"] = "the 2^8 subsets of the PUBLISH properties"
     ctx.cov["scenario_histogram"] = hist
@@ -875,7 +974,7 @@ def relabel(s):
         if s.group == "cross":
             m = dict(s.meta)
             m["props"] = tuple(m.get("props", ()))
-            t = cross_scenario(0, {k: m[k] for k in ("pv", "q", "props", "subid", "psize") if k in m})
+            t = cross_scenario(0, {k: m[k] for k in ("pv", "q", "props", "subid", "psize", "cdlen", "tlen") if k in m})
         elif s.group == "wills":
             t = will_scenario(0, {k: s.meta[k] for k in ("lv", "will", "end", "nsubs", "traffic", "late", "subq")})
         elif s.group == "admission":
